@@ -1314,9 +1314,15 @@ def run_variant(ctx, bd, variant, rng, results):
     vname = vname_of(variant)
     validators = {}
 
-    def one(case, patience=25.0):
+    stalls = [0]       # exchanges of this server in which the client's patience ran out (connection still open)
+
+    def one(case, patience=None):
         name, reqs, sched, extra = case
         segs = None
+        if patience is None:
+            # a server that keeps connections open systematically (a broken close path) is established after
+            # three such exchanges; the remaining cases need not each wait the full patience to say so again
+            patience = 25.0 if stalls[0] < 3 else 4.0
         if isinstance(extra, str) and extra.startswith("validators:"):
             i = int(extra.split(":")[1])
             if i not in validators:
@@ -1337,6 +1343,8 @@ def run_variant(ctx, bd, variant, rng, results):
             got, closed = client(srv.port, data, sched, segs=segs, patience=patience)
         except OSError as ex:
             return (vname, name, reqs, sched, "client I/O error: %s" % ex, [], b"")
+        if not closed:
+            stalls[0] += 1
         # the model decides whether a streamed CGI response keeps the connection: expected count follows observation
         msg, obs = check_exchange_adaptive(reqs, got, closed)
         return (vname, name, reqs, sched, msg, obs, got)
@@ -1375,12 +1383,15 @@ def run_variant(ctx, bd, variant, rng, results):
         # A hit counts iff it recurs at least once (fault-shim servers draw a new fault schedule per
         # connection, so they get more attempts).  Hits that never recur are listed in the evidence notes.
         tries = 4 if variant.get("shim") else 2
+        confirmed = 0
         for idx in range(len(out)):
             if not out[idx][4] or not srv.alive():
                 continue
+            if confirmed >= 5:
+                continue        # five confirmed hits on this server: systematic; the rest stand as observed
             recurred = None
             for _ in range(tries):
-                r2 = one(cases[idx], patience=60.0)
+                r2 = one(cases[idx], patience=60.0 if confirmed == 0 else 30.0)
                 if r2[4]:
                     recurred = r2
                     break
@@ -1388,6 +1399,7 @@ def run_variant(ctx, bd, variant, rng, results):
                     break
             if recurred is not None:
                 out[idx] = recurred
+                confirmed += 1
             elif srv.alive():
                 transient.append("%s/%s: '%s' seen once under the parallel first pass, not in %d serial repeats of the "
                                  "same case (load artefact, not reported)" % (vname, out[idx][1], out[idx][4][:90], tries))
